@@ -1,6 +1,6 @@
 (** C06 -- Lists and records are shared by reference; indexed write then read agree. *)
 From Pakhi Require Import Base Float64 Syntax Tables Lexer Interp.
-From Pakhi.Proofs Require Import Assoc Scope ListOps HeapRW Unfold.
+From Pakhi.Proofs Require Import Assoc Scope ListOps HeapRW Unfold PathRW.
 Local Open Scope nat_scope.
 
 (* Reference semantics: a value of list or record type *is* an address (VList a / VRec a).  Declaring another
@@ -70,3 +70,46 @@ Theorem C06_push_through_alias : forall code m a l, nth_error (h_lists (m_heap m
              only_list_changed (m_heap m) (m_heap m') a (l ++ [v]).
 Proof. exact push_appends. Qed.
 Print Assumptions C06_push_through_alias.
+
+(* whole paths, every alias, every heap (cyclic and shared ones included): after x[i1]..[in] = v, ANY path from ANY root that
+   leads to the written container and then takes the written index reads v -- the same path, or one through an alias
+   created by assignment, argument passing, return or nesting: an alias is the same address --, and any path that does
+   not read the written cell reads what it read before.  [avoids] excludes only paths that go THROUGH the written cell
+   (x[0] = x; x[0][0] = 5), for which C06_path_through_the_written_cell shows the exclusion is necessary. *)
+Theorem C06_write_then_read_any_path : forall pre m c ix v p m',
+  assign_path m c (pre ++ [ix]) v p = Ok m' ->
+  exists t w, resolve (m_heap m) c pre = Some t /\
+    (forall c2 q, resolve (m_heap m) c2 q = Some t -> avoids (m_heap m) w c2 q -> resolve (m_heap m') c2 (q ++ [ix]) = Some v) /\
+    (forall c2 q, avoids (m_heap m) w c2 q -> resolve (m_heap m') c2 q = resolve (m_heap m) c2 q) /\
+    same_but_heap m m'.
+Proof. exact write_then_read_any_path. Qed.
+Print Assumptions C06_write_then_read_any_path.
+
+Theorem C06_path_through_the_written_cell :
+  let h := mkHeap [[VList 0; VBool true]] [] [] [] 1 in
+  let five := VStr [53%N] in
+  resolve h (VList 0) [IxNum f_zero] = Some (VList 0) /\
+  ~ avoids h (CL 0 0) (VList 0) [IxNum f_zero] /\
+  resolve (write h (CL 0 0) five) (VList 0) [IxNum f_zero; IxNum f_zero] = None /\
+  resolve (write h (CL 0 0) five) (VList 0) [IxNum f_zero] = Some five.
+Proof. exact path_through_the_written_cell. Qed.
+Print Assumptions C06_path_through_the_written_cell.
+
+(* the statement as a whole, and the read expression x[i1]..[in] as the same walk *)
+Theorem C06_indexed_assignment_statement : forall code fuel m x xp i0 idx e p m',
+  stmt_at code (m_pc m) = Some (FAssign AReassign x xp (i0 :: idx) (Some e) p) ->
+  interp code (S fuel) m = Ok m' ->
+  exists v m1 c pre ix m2 t w,
+    eval code fuel e m = Ok (v, m1) /\ lookup_var x (m_scopes m1) = Some c /\
+    eval_indexes (eval code fuel) (i0 :: idx) m1 = Ok (pre ++ [ix], m2) /\
+    resolve (m_heap m2) c pre = Some t /\ selects (m_heap m2) w t ix /\
+    m' = next (set_heap m2 (write (m_heap m2) w v)).
+Proof. exact indexed_assignment_statement. Qed.
+Print Assumptions C06_indexed_assignment_statement.
+
+Theorem C06_index_expression_reads_the_path : forall code is path b m c t,
+  stable code b m c -> Forall2 (fun ip ix => stable code (fst ip) m (index_value ix)) is path ->
+  resolve (m_heap m) c path = Some t ->
+  forall fuel, eval code (S (length is + fuel)) (index_chain b is) m = Ok (t, m).
+Proof. exact index_chain_reads_the_path. Qed.
+Print Assumptions C06_index_expression_reads_the_path.
